@@ -165,6 +165,7 @@ pzgstrf_thread_init(SuperMatrix *A, SuperMatrix *L, SuperMatrix *U,
     /* Prepare arguments to all threads. */
     pzgstrf_threadarg = (pzgstrf_threadarg_t *) 
         SUPERLU_MALLOC(nprocs * sizeof(pzgstrf_threadarg_t));
+    if ( !pzgstrf_threadarg ) SUPERLU_ABORT("Malloc fails for the thread arguments.");
     for (i = 0; i < nprocs; ++i) {
         pzgstrf_threadarg[i].pnum = i;
         pzgstrf_threadarg[i].info = 0;
